@@ -471,3 +471,36 @@ def check_C17(ctx):
                       "validated by the same TLA+ trace specification, including the independent decode of every flushed image; each job is "
                       "first run with no callbacks on the same seed, so that only deviations caused by the callbacks count",
                       ASSUME_COMMON + ["the harness's neutral callbacks are themselves correct (same bytes, chunked I/O, identity hooks)"])
+
+
+# ------------------------------------------------------------------- C05
+def check_C05(ctx):
+    ctx.model_check("MC_Conc.tla", q(ctx, "MC_Conc.cfg", "MC_Conc_thorough.cfg"), timeout=2400)
+    ctx.model_check("Reclaim.tla", "MC_Reclaim_q.cfg")
+    chunks = q(ctx, 8, 16)
+    def one(i):
+        out = os.path.join(ctx.work, "conc-%d.ndjson" % i)
+        args = ["conc", "-seed", ctx.seed * 100 + i, "-runs", q(ctx, 6, 40), "-muts", q(ctx, 400, 1500),
+                "-readers", [2, 4, 8][i % 3], "-yield", [10, 30, 60][i % 3], "-out", out]
+        st, poisoned = ctx.drive(args, timeout=2400)
+        ctx.validate(out, {"C05"}, module="Trace_Conc.tla", cfg="Trace_Conc.cfg",
+                     cmdline=" ".join(map(str, [ctx.bin] + args)), timeout=2400)
+        if not any(out in json.dumps(v) for v in ctx.violations):
+            os.remove(out)
+        return st
+    with ThreadPoolExecutor(max_workers=4) as ex:
+        sts = list(ex.map(one, range(chunks)))
+    ctx.traces = sum(s["histories"] for s in sts)
+    for k in ("reads", "flushes"):
+        ctx.coverage_extra["concurrent_" + k] = sum((s.get("extra") or {}).get(k, 0) for s in sts)
+    return ctx.finish("model_checking",
+                      "exhaustive: Conc.tla - every interleaving of mutator (pin/build/CAS), flusher (pins in name order, writes, root) and "
+                      "readers (pin/read) for small programs: ReadsOneVersion, NoLostUpdate, FlushOrder (violated when pins are not in name "
+                      "order); Reclaim.tla for node-level safety under the same interleavings (Pin/Unpin); conformance: real goroutines "
+                      "(1 mutator, 1 flusher, 2-8 readers) under the Go scheduler perturbed at the verif-tag yield points, file I/O and "
+                      "visitor callbacks; events totally ordered by an atomic counter (Pub from inside rootCAS); TLC checks every read, "
+                      "visit and Snapshot against ONE version current within its call interval, exactly-one publish per mutation, final "
+                      "contents, and for every Flush the independently decoded image against versions current during the flush captured "
+                      "monotonically in name order; non-trivial = concurrent run with >= 1 flush overlapping mutations",
+                      ASSUME_COMMON + ["schedules are sampled (real scheduler + random pauses), not enumerated",
+                                       "by-design unsynchronised accesses (itemLocMutex = false) are outside the specification"])
